@@ -138,12 +138,12 @@ def cmd(name):
 
 @cmd("and")
 def _and(rng, files):
-    return [rng.randint(0, 4), rng.randint(0, 4)], False
+    return [rng.randint(0, 3), rng.randint(0, 3)], False
 
 
 @cmd("or")
 def _or(rng, files):
-    return [rng.randint(0, 4), rng.randint(0, 4)], False
+    return [rng.randint(0, 3), rng.randint(0, 2)], False
 
 
 @cmd("true")
@@ -406,7 +406,7 @@ SMALL_BASE = ["and", "or", "true", "false", "parity", "peb", "ptn", "vdw",
 
 
 TINY_BASE = ["and", "or", "true", "false", "parity", "peb", "ptn"]
-CHEAP_TRANSFORMS = ["none", "flip", "shuffle", "ite", "or", "xor", "lift",
+CHEAP_TRANSFORMS = ["none", "flip", "shuffle", "or", "xor", "lift",
                     "xorcomp", "majcomp"]
 
 
